@@ -689,6 +689,8 @@ class Generator:
         generates, plus vstd's FromSpecImpl so that `?` conversions are transparent to Verus."""
         relfile, src, toks, offs = self._cur
         s = sig_idx(toks, it.open, it.end)
+        axioms = []
+        opened = False
         for n in range(len(s) - 6):
             if toks[s[n]].kind == "id" and toks[s[n + 1]].text == "(" and toks[s[n + 2]].text == "#" \
                     and toks[s[n + 3]].text == "[" and toks[s[n + 4]].text == "from" and toks[s[n + 5]].text == "]":
@@ -697,13 +699,24 @@ class Generator:
                 var = toks[s[n]].text
                 en = it.name
                 o = {"o": "rule", "f": relfile, "l": line_of(offs, toks[s[n]].start), "fn": it.path()}
+                if not opened:
+                    self.out.add("pub mod verif_from_%s {\nuse super::*;\n" % it.name, o)
+                    opened = True
                 self.out.add(
                     "impl From<%s> for %s { fn from(e: %s) -> (r: %s) ensures r == %s::%s(e) { %s::%s(e) } }\n"
                     "impl vstd::std_specs::convert::FromSpecImpl<%s> for %s {\n"
                     "    open spec fn obeys_from_spec() -> bool { true }\n"
                     "    open spec fn from_spec(e: %s) -> %s { %s::%s(e) }\n}\n"
-                    % (ty, en, ty, en, en, var, en, var, ty, en, ty, en, en, var), o)
+                    "// `?` converts errors through this From impl (vstd leaves spec_from uninterpreted for user conversions)\n"
+                    "pub broadcast axiom fn axiom_from_%s_%s(e: %s, e2: %s)\n"
+                    "    ensures #[trigger] vstd::std_specs::control_flow::spec_from::<%s, %s>(e, e2) ==> e2 == %s::%s(e);\n"
+                    % (ty, en, ty, en, en, var, en, var, ty, en, ty, en, en, var,
+                       en, var, ty, en, en, ty, en, var), o)
+                axioms.append("axiom_from_%s_%s" % (en, var))
                 self.log(relfile, it.path())("R-derive: generated From<%s> for %s (thiserror #[from])" % (ty, en))
+        if axioms:
+            self.out.add("}\nbroadcast use %s;\n" % ", ".join("verif_from_%s::%s" % (it.name, a) for a in axioms),
+                         {"o": "rule", "f": relfile, "l": 0, "fn": it.path()})
 
     def _flush(self, toks, lo, hi, edits, fnpath):
         for i in range(lo, hi):
